@@ -428,10 +428,28 @@ func c17Run(env *core.Env, idx int) core.CaseResult {
 		if err := json.Unmarshal(text, sw); err != nil {
 			return res
 		}
+		// parts made with the builder API, as a Go program would add them (nil scope lists, nil maps and slices where a decoder
+		// leaves empty ones): finished before the goroutines start, read-only afterwards
+		built := spec.NewOperation("c17built").SecuredWith("basic").SecuredWith("oauth", "read").WithTags("built").
+			RespondsWith(200, spec.NewResponse().WithDescription("ok")).AddParam(spec.QueryParam("q").Typed("string", ""))
+		if sw.Paths == nil {
+			sw.Paths = &spec.Paths{}
+		}
+		if sw.Paths.Paths == nil {
+			sw.Paths.Paths = map[string]spec.PathItem{}
+		}
+		sw.Paths.Paths["/c17-built"] = spec.PathItem{PathItemProps: spec.PathItemProps{Get: built}}
+		sw.Security = append(sw.Security, map[string][]string{"c17key": nil})
+		if sw.Definitions == nil {
+			sw.Definitions = spec.Definitions{}
+		}
+		sw.Definitions["c17built"] = *spec.MapProperty(spec.StringProperty()).WithRequired("a").SetProperty("a", *spec.ArrayProperty(spec.Int64Property()))
+		res.Count("shared-document-with-builder-made-parts", 1)
 		var ptrs []string
 		for p := range dg.Kinds {
 			ptrs = append(ptrs, p)
 		}
+		ptrs = append(ptrs, "/paths/~1c17-built/get/security/0/basic", "/definitions/c17built/properties/a/items")
 		sort.Strings(ptrs)
 		if len(ptrs) > 40 {
 			ptrs = ptrs[:40]
